@@ -182,7 +182,8 @@ def x3_worker_exit_vs_submit(with_user=True, collected=False, nowait_shutdown=Fa
               "C08 a worker was spawned without the management lock": S["ptable.spawned_unlocked"]}
     stuck = {"C07 submitted work is pending but no worker is left and nobody will start one (lost task)": lost,
              "C01 a thread is blocked for ever": z3.Not(sl.all_ended())}
-    known = {"F1": z3.Not(S["ex._processes_management_lock?"]), "F2": S["weakref.dead"]}
+    # F2 (known finding): executor collected, work pending, pool empty, nobody died: the specific stuck state
+    known = {"F2": z3.And(S["weakref.dead"], S["pending.m"] != 0, S["processes.m"] == 0, S["fail"] == 0)}
     witness = z3.And(sl.all_ended(), S["g.submitted"], S["processes.m"] != 0) if with_user else sl.all_ended()
     return sl, dict(init=init, safety=safety, stuck=stuck, witness=witness, known=known, assumptions=[
         "initial state: max_workers=1, its only worker idle and past its exit announcement, 0..1 tasks dispatched before",
